@@ -128,8 +128,8 @@ PLANS = {
     "C05": dict(
         mc=[("Faults", "MC_Faults.cfg", "4 syncs, levels 1-2, up to 3 faults of every kind on listings, uploads and compaction writes")],
         mc_thorough=[("Faults", "MC_Faults5.cfg", "5 syncs, up to 4 faults")],
-        sim=("Faults", "Sim_Faults.cfg", 120, 1500, 40, "faults"),
-        random=dict(n=120, n_thorough=2000, length=26, faults=True, retention=False),
+        sim=("Faults", "Sim_Faults.cfg", 120, 700, 40, "faults"),
+        random=dict(n=120, n_thorough=900, length=26, faults=True, retention=False),
         cfg=dict(faults=True, restoreEach=True),
         invariants=["C05_Level0Gapless", "C05_AckMeansStored", "C05_AlwaysRestorable", "C05_CatchesUp", "C06_NoCorruptFile"],
         nontrivial="distinct schedule in which at least one injected storage fault was consumed by a litestream call and a later acknowledgement was judged",
@@ -137,8 +137,8 @@ PLANS = {
     "C06": dict(
         mc=[("Replica", "MC_Replica.cfg", "3 syncs, clock 3, levels {0,1,2,9}, snapshots, all retention thresholds: LevelContig on retention-free histories")],
         mc_thorough=[("Replica", "MC_Replica4.cfg", "4 syncs, clock 4")],
-        sim=("Replica", "Sim_Replica_noret.cfg", 100, 1200, 30, "repl"),
-        random=dict(n=120, n_thorough=2000, length=24, faults=False, retention=False),
+        sim=("Replica", "Sim_Replica_noret.cfg", 100, 600, 30, "repl"),
+        random=dict(n=120, n_thorough=900, length=24, faults=False, retention=False),
         cfg=dict(restoreEach=True, audit=True),
         invariants=["C06_CompactedEqualsInputs", "C06_NoCorruptFile", "C06_LevelsContiguous", "C02_EveryTxidIsACommittedState"],
         nontrivial="distinct schedule with at least one compaction or snapshot output compared with the composition of its level-0 inputs",
@@ -147,8 +147,8 @@ PLANS = {
         mc=[("Replica", "MC_Replica.cfg", "3 syncs, clock 3, levels {0,1,2,9}, snapshots, every retention threshold: Restorable, SnapshotKept, L0Run"),
             ("Replica", "MC_Replica_noret.cfg", "same with RetentionEnabled = FALSE")],
         mc_thorough=[("Replica", "MC_Replica4.cfg", "4 syncs, clock 4")],
-        sim=("Replica", "Sim_Replica.cfg", 120, 1500, 34, "repl"),
-        random=dict(n=120, n_thorough=2000, length=26, faults=False, retention=True),
+        sim=("Replica", "Sim_Replica.cfg", 120, 700, 34, "repl"),
+        random=dict(n=120, n_thorough=900, length=26, faults=False, retention=True),
         cfg=dict(restoreEach=True),
         invariants=["C07_LatestStillRestorable", "C07_SnapshotKept", "C07_Level0OneRun"],
         nontrivial="distinct schedule in which a retention pass ran after compactions/snapshots and the latest restore was judged afterwards",
